@@ -5,7 +5,7 @@ ids=sys.argv[1:] or sorted(os.listdir('/verif/seeded'))
 for key in ids:
     mp=f'/verif/seeded/{key}/meta.json'; trp=f'/var/tmp/seedlogs/regress-{key}.try'
     if not os.path.exists(mp) or not os.path.exists(trp): continue
-    meta=json.load(open(mp)); tr=open(trp,errors='replace').read(); p=meta['breaks_property']
+    meta=json.load(open(mp)); tr=open(trp,errors='replace').read(); p=meta.get('check_property',meta['breaks_property'])
     classes=sorted(set(re.findall(r'class: (\S+)',tr)))
     vline=re.search(r'vcheck: property.*',tr)
     ex=1 if 'exit=1' in tr else (0 if 'exit=0' in tr else 2)
